@@ -7,27 +7,27 @@ V = os.path.dirname(os.path.dirname(os.path.abspath(__file__)))
 
 META = {
  "C01": ("translation_validation", "§3 C01",
-         "Translation validation of the macro's output against an independent re-implementation of the short/long/optional spelling rule (set equality of the spelled language per witness interface, every spelling and near miss), plus structural rules on the runtime walk (Node::child, header parsers, execute, generated dispatcher).",
+         "Translation validation of the macro's output against an independent re-implementation of the short/long/optional spelling rule (set equality of the spelled language per witness interface, every spelling and near miss), plus structural rules on the runtime walk (Node::child, header parsers, execute, generated dispatcher). The meaning of the parser combinators (satisfy, take_while, optional, tag) that the skeleton rules build on is read from their own bodies on every run (contract rule PR). The parsed call's query flag and node are tied to what parse consumed (C01-Q).",
          "Trusted: rustc front end, factdump, the 30-line oracle. Declaration sets outside the witness families are covered only by the structural rules on the runtime.",
          "translation validation of macro expansion + HIR structural rules"),
  "C02": ("other", "§3 C02",
-         "Path-summary rules on Interface::run (path variable is root at entry and after every terminator path, parent header after ';', unchanged for common commands) and on compound_command_program_header (returned header = parent of returned node, start node root iff leading colon); sequential execution by await-in-place.",
+         "Path-summary rules on Interface::run (path variable is root at entry and after every terminator path, parent header after ';', unchanged for common commands) and on compound_command_program_header (returned header = parent of returned node, start node root iff leading colon); sequential execution by await-in-place. The parsed call's terminated flag and header are tied to what parse consumed, `no call` only for an empty message (C02-F); the buffer discipline of process (one whole message per call of run) is evaluated here as well (C02-K).",
          "Trusted: pathsum. Decides the structural conditions on every path of the two functions, not the behaviour of concrete message sequences.",
          "path-summary dataflow over type-checked HIR"),
  "C03": ("other", "§3 C03",
-         "Sibling agreement of the conversion impls in value.rs (radix table, Self type, error kinds, no cast), generated-arm argument discipline (arity guard, args.get(j) in order, conversions before the call), recogniser/variant/radix table agreement, argument vector overflow discipline.",
+         "Sibling agreement of the conversion impls in value.rs (radix table, Self type, error kinds, no cast), generated-arm argument discipline (arity guard, args.get(j) in order, conversions before the call), recogniser/variant/radix table agreement, argument vector overflow discipline. The meaning of the parser combinators (satisfy, take_while, optional, tag) that the skeleton rules build on is read from their own bodies on every run (contract rule PR). Incomplete discipline of the data recognisers (rule C12-I) is evaluated here as well.",
          "Numeric exactness of core::num / core::str::parse is trusted.",
          "HIR structural rules + sibling cross-check + byte-class denotation"),
  "C04": ("other", "§3 C04",
-         "Format tables of every Response impl (decoded format templates, sentinel decision table, separators), string quoting, newline+flush discipline in execute, writer who-may-call and sibling agreement.",
+         "Format tables of every Response impl (decoded format templates, sentinel decision table, separators), string quoting, newline+flush discipline in execute, writer who-may-call and sibling agreement. The buffer discipline of process (a unit is handed to run once) is evaluated here as well (C04-K).",
          "core::fmt Display output is trusted to decode to the same value.",
          "HIR structural rules + format-template decoding"),
  "C05": ("other", "§3 C05",
-         "Every panic edge of the library and of generated dispatchers (MIR asserts, #[track_caller] and tabled may-panic callees) is discharged by a guard rule; parser progress and suffix discipline; bounded writers.",
+         "Every panic edge of the library and of generated dispatchers (MIR asserts, #[track_caller] and tabled may-panic callees) is discharged by a guard rule; parser progress and suffix discipline; bounded writers. The meaning of the parser combinators (satisfy, take_while, optional, tag) that the skeleton rules build on is read from their own bodies on every run (contract rule PR). Arithmetic, slicing and split sites outside the shape rules are discharged by Fourier-Motzkin entailment from slice-length facts, with inferred counting-loop invariants (rule LF).",
          "Panics inside core/heapless beyond documented preconditions and user code are out of scope.",
          "MIR panic-edge universe + guard discharge + progress rules"),
  "C06": ("other", "§3 C06",
-         "Path-summary rules on Interface::run: one handle_error per faulty path with the verbatim error, faulty bytes skipped, state inventory across back-edges.",
+         "Path-summary rules on Interface::run: one handle_error per faulty path with the verbatim error, faulty bytes skipped, state inventory across back-edges. The conversion and argument-vector rules of C03 (no wrapping/truncating conversion, no dropped push) are evaluated here as well.",
          "Decides structural conditions per path; the history-level equality follows by the argument in DESIGN.md.",
          "path-summary rules over HIR"),
  "C07": ("other", "§3 C07",
@@ -35,23 +35,23 @@ META = {
          "Decides the buffer discipline, not equality of behaviour across chunkings as such.",
          "path summaries + linear normal forms"),
  "C08": ("other", "§3 C08",
-         "Byte-class denotation of string payload classes (all bytes but the delimiter), block taken by length only, Incomplete never masked on the way from a newline-transparent parser to run.",
+         "Byte-class denotation of string payload classes (all bytes but the delimiter), block taken by length only, Incomplete never masked on the way from a newline-transparent parser to run. The meaning of the parser combinators (satisfy, take_while, optional, tag) that the skeleton rules build on is read from their own bodies on every run (contract rule PR).",
          "Trusted: bytecls evaluator, pathsum.",
          "byte-class denotation + error-kind flow over HIR"),
  "C09": ("proof", "§3 C09",
-         "The queue implementation is matched against the abstract bounded FIFO with replace-newest overflow: callee sets and store discipline of push/pop/count, blanket handler pushes once, NEXT?/COUNt? handlers, error number/text table against SCPI-1999.",
+         "The queue implementation is matched against the abstract bounded FIFO with replace-newest overflow: callee sets and store discipline of push/pop/count, blanket handler pushes once, NEXT?/COUNt? handlers, error number/text table against SCPI-1999. On the witness interfaces every spelling of the error queries reaches exactly the queue-reading functions through trie and dispatcher (C09-D).",
          "heapless::Deque is trusted to be a bounded deque.",
          "HIR/MIR callee-set and who-may-call rules + table comparison"),
  "C10": ("proof", "§3 C10",
-         "All clauses are structural and are decided for every stream and fault position on the single generic body of process: transport calls `.await?` unchanged, only error exits, response typestate (write+flush+clear before read).",
+         "All clauses are structural and are decided for every stream and fault position on the single generic body of process: transport calls `.await?` unchanged, only error exits, response typestate (write+flush+clear before read). execute's output discipline (rule C04-X: terminator only after a successful query) is evaluated here as well.",
          "Trusted: rustc HIR/typeck, factdump, pathsum.",
          "path-summary typestate over type-checked HIR"),
  "C11": ("other", "§3 C11",
-         "White-space class denotes exactly {0..9,11..32}; classes of headers and numbers closed under ASCII case; optional white space exactly where the grammar allows (parser skeleton); case-insensitive child lookup.",
+         "White-space class denotes exactly {0..9,11..32}; classes of headers and numbers closed under ASCII case; optional white space exactly where the grammar allows (parser skeleton); case-insensitive child lookup. The meaning of the parser combinators (satisfy, take_while, optional, tag) that the skeleton rules build on is read from their own bodies on every run (contract rule PR).",
          "Decides the grammar facts from which equality of behaviour of variants follows.",
          "byte-class denotation + parser skeleton rules"),
  "C12": ("other", "§3 C12",
-         "Incomplete constructed only under end-of-input conditions, never masked after commitment; take_while sites cannot succeed because input ended (class excludes newline or mandatory tag follows); >=1 byte consumed.",
+         "Incomplete constructed only under end-of-input conditions, never masked after commitment; take_while sites cannot succeed because input ended (class excludes newline or mandatory tag follows); >=1 byte consumed. The meaning of the parser combinators (satisfy, take_while, optional, tag) that the skeleton rules build on is read from their own bodies on every run (contract rule PR).",
          "Derives the for-all-continuations statement from structural facts.",
          "who-may-construct + byte-class + skeleton rules"),
  "C13": ("proof", "§3 C13",
